@@ -732,6 +732,91 @@ func c20HeapArg(cells, root V) (data interface{}) {
 	return c20Build(root, c20TypeOfVal(root)).Interface()
 }
 
+
+// c20First: the number in the first line of a report: [] for "<nil>", [n] for "<type>: n ..."
+func c20First(s string) string {
+	first := s
+	if i := strings.IndexByte(s, '\n'); i >= 0 {
+		first = s[:i]
+	}
+	if first == "<nil>" {
+		return L()
+	}
+	i := strings.LastIndex(first, ": ")
+	if i < 0 {
+		return L(Str(first))
+	}
+	n, err := strconv.ParseInt(first[i+2:], 10, 64)
+	if err != nil {
+		return L(Str(first))
+	}
+	return L(I(n))
+}
+
+// c20Session: size.Of / size.Stat keep nothing between calls, also not when a call panics.
+// args: T, v1, v2 (two values of type T), depth, maxItem, variant.  Three rounds of: p := &v1;
+// Of(p), Stat(p); Stat(holder of p and a member of an unsupported kind) -> panics (recovered);
+// *p = v2 (same address, other size); Of(p), Stat(p).
+func c20Session(a []V) string {
+	var t reflect.Type
+	var x1, x2 reflect.Value
+	func() {
+		defer func() {
+			if e := recover(); e != nil {
+				c20Fatal("cannot build the session values: %v", e)
+			}
+		}()
+		c20Shared, c20SharedText = map[int]reflect.Value{}, map[int]string{}
+		c20MapKeys, c20Cells = map[uintptr][]reflect.Value{}, nil
+		t = c20Type(a[0])
+		x1 = c20Build(a[1], t)
+		x2 = c20Build(a[2], t)
+	}()
+	d, m, variant := a[3].Int(), a[4].Int(), a[5].Int()
+	rounds := []string{}
+	for round := 0; round < 3; round++ {
+		p := reflect.New(t)
+		p.Elem().Set(x1)
+		data := p.Interface()
+		o := []string{Int(size.Of(data)), c20First(size.Stat(data, d, m))}
+		var holder interface{}
+		ch := make(chan int)
+		switch variant {
+		case 0:
+			h := reflect.New(reflect.StructOf([]reflect.StructField{{Name: "P", Type: p.Type()}, {Name: "C", Type: reflect.TypeOf(ch)}})).Elem()
+			h.Field(0).Set(p)
+			h.Field(1).Set(reflect.ValueOf(ch))
+			holder = h.Interface()
+		case 1:
+			f := func() {}
+			h := reflect.New(reflect.StructOf([]reflect.StructField{{Name: "P", Type: p.Type()}, {Name: "F", Type: reflect.TypeOf(f)}})).Elem()
+			h.Field(0).Set(p)
+			h.Field(1).Set(reflect.ValueOf(f))
+			holder = h.Interface()
+		case 2:
+			holder = []interface{}{data, ch}
+		default:
+			h := reflect.New(reflect.StructOf([]reflect.StructField{{Name: "P", Type: p.Type()}, {Name: "N", Type: reflect.TypeOf(0)}})).Elem()
+			h.Field(0).Set(p)
+			holder = h.Interface()
+		}
+		panicked := func() (r string) {
+			defer func() {
+				if e := recover(); e != nil {
+					r = "1"
+				}
+			}()
+			_ = size.Stat(holder, 3, 10)
+			return "0"
+		}()
+		o = append(o, panicked)
+		p.Elem().Set(x2)
+		o = append(o, Int(size.Of(data)), c20First(size.Stat(data, d, m)))
+		rounds = append(rounds, L(o...))
+	}
+	return L(rounds...)
+}
+
 func init() {
 	Exec["size.Of"] = func(a []V) string {
 		data := c20Arg(a[0])
@@ -825,6 +910,7 @@ func init() {
 		data := c20CanonArg(a[0])
 		return Int(size.Of(typehelper.ToSlice(data)))
 	}
+	Exec["size.Stat/after-panic"] = c20Session
 	Exec["size.Of/heap"] = func(a []V) string {
 		return Int(size.Of(c20HeapArg(a[0], a[1])))
 	}
@@ -1785,6 +1871,45 @@ func genC20(g *Gen) {
 		}
 		g.Exhaust = append(g.Exhaust, "averages: sizes 0..17 over AvgOf/AvgUnit combinations with quotient k/16, k/32, k/3, 2k (exact ties at the third decimal included)")
 		g.Exhaust = append(g.Exhaust, fmt.Sprintf("whole report: depth -2..6 x maxItem {-1..5,100} on %d fixed values (the struct of TestSizeStat behind a pointer and in a slice, slices of slices of length 0..5, arrays of arrays, a chain of pointers, nested interfaces, a map of slices)", len(shapesG)))
+	}
+
+
+	// (3h) sessions: Of / Stat of a pointer before and after a Stat call that PANICS on a holder of that
+	// pointer and a chan / func member, with the pointee replaced (same address, other size) in between
+	{
+		sess := func(t *c20T, v1, v2 string, variant int, bucket string) {
+			d, m := g.R.Pick(0, 1, 2, 3, -1), g.R.Pick(0, 1, 3, 10, 100)
+			g.Stat(bucket)
+			g.Do("size.Stat/after-panic", L(t.Text(), v1, v2, Int(d), Int(m), Int(variant)), fmt.Sprintf("session/v%d/T%d/d%d", variant, t.K, minInt(d, 3)))
+		}
+		i32 := &c20T{K: 23, Elem: c20S(5)}
+		for variant := 0; variant <= 3; variant++ {
+			sess(i32, L("23", "[5]", "0", rep(3, func(i int) string { return "[5,0]" })), L("23", "[5]", "0", rep(8, func(i int) string { return L("5", Int(i)) })), variant, "exh-session")
+			sess(c20S(24), L("24", Str("ab")), L("24", Str("abcdefghij")), variant, "exh-session")
+			for _, e := range elems {
+				if e.t.K != 20 {
+					sess(e.t, e.v(0), e.v(7), variant, "exh-session")
+					st := &c20T{K: 23, Elem: e.t}
+					sess(st, L("23", e.t.Text(), "0", rep(1, e.v)), L("23", e.t.Text(), "0", rep(5, e.v)), variant, "exh-session")
+				}
+			}
+		}
+		for k, n := 0, g.N(200, 4000); k < n; k++ {
+			var t *c20T
+			for {
+				t = c20RandType(g.R, g.R.Pick(1, 2, 2, 3), false)
+				if t.K != 20 {
+					break
+				}
+			}
+			gen.reset(0)
+			gen.budget = g.R.Pick(10, 40, 100)
+			v1 := gen.val(t, 4)
+			gen.budget = g.R.Pick(10, 40, 100)
+			v2 := gen.val(t, 4)
+			sess(t, v1, v2, g.R.Pick(0, 0, 1, 2, 2, 3), "rand-session")
+		}
+		g.Exhaust = append(g.Exhaust, "sessions: 4 holder variants (chan member, func member, []interface{} with a chan, no unsupported member) x pointees of every element type and slices of them growing from 1 to 5 elements")
 	}
 
 	// (3c) slices / arrays whose elements are ARRAYS of non-scalars: outer x array length x inner shape x leaf type
